@@ -207,9 +207,10 @@ def translate(repo):
         j = loops[0].target.id
         lb = [s for s in loops[0].body if not is_skippable(s)]
         if len(lb) == 1 and isinstance(lb[0], ast.If) and ast.unparse(lb[0].test) == "self._is_current(%s)" % j:
-            t_src = ast.unparse(ast.Module(body=lb[0].body, type_ignores=[]))
-            e_src = ast.unparse(ast.Module(body=lb[0].orelse, type_ignores=[]))
-            ok = ("completed.append(%s)" % j) in t_src and "todo.append" not in t_src and ("todo.append(%s)" % j) in e_src and "completed.append" not in e_src
+            # each branch is exactly one append (logging apart): a further branch in which a job reaches neither list is refused
+            t_src = [ast.unparse(x) for x in lb[0].body if not is_skippable(x)]
+            e_src = [ast.unparse(x) for x in lb[0].orelse if not is_skippable(x)]
+            ok = t_src == ["completed.append(%s)" % j] and e_src == ["todo.append(%s)" % j]
     ret = [s for s in fn.body if isinstance(s, ast.Return)]
     if not ok or not ret or ast.unparse(ret[-1].value) != "(completed, todo)":
         fail(fn, "_filter_jobs shape (completed iff self._is_current(job))", fname)
